@@ -229,6 +229,46 @@ def random_event(rng, s, pal):
     return e
 
 
+def plausible(s, e):
+    """Cheap pre-filter so that few histories are cut at a call outside the supported inputs (EventOK in FrameSM.tla
+    remains the judge of what is supported; this only steers the generator)."""
+    fr = s.frames
+    d = fr[e["x"] - 1]
+    cols = list(dict.keys(d))
+    n = safe_nrow(d)
+    o = fr[e["o"] - 1] if "o" in e else None
+    ocols = list(dict.keys(o)) if o is not None else []
+    op = e["op"]
+    a = e.get("a", {})
+    if op in ("filter", "filter_out"):
+        return bool(cols)
+    if op in ("drop_na", "unique"):
+        return bool(a["cols"])
+    if op == "sort":
+        return bool(a["keys"]) and all(dd == 1 or not any(gamma.is_missing(v) for v in np.asarray(d[k]).tolist())
+                                       for k, dd in zip(a["keys"], a["dirs"]))
+    if op == "select":
+        return bool(a["names"])
+    if op == "rename":
+        return bool(a["pairs"]) and a["pairs"][0][0] not in cols
+    if op == "modify":
+        return bool(cols) and not d._group_colnames
+    if op in ("cbind", "update"):
+        return bool(cols) and bool(ocols) and safe_nrow(o) in (n, 1)
+    if op in ("left", "inner", "semi", "anti", "full"):
+        ok = "k" in cols and "k" in ocols and set(cols) & set(ocols) == {"k"}
+        if ok and op == "full":
+            ok = "r" in cols and "rr" in ocols
+        return ok
+    if op == "setcol":
+        return bool(ocols) and (not cols or safe_nrow(o) == n)
+    if op in ("delitem", "delattr", "pop"):
+        return e["name"] in cols
+    if op == "poke":
+        return e.get("name") in cols and n > 0
+    return True
+
+
 def random_trace(rng, nsteps):
     pal = rng.choice(SM_PALETTES)
     n1, n2 = rng.choice([0, 1, 2, 3, 3]), rng.choice([0, 1, 2, 2, 3])
@@ -238,8 +278,31 @@ def random_trace(rng, nsteps):
         init.append({"cols": [], "cell": {}})
     s = Session(pal, init)
     tr = {"palette": pal.name, "init": init, "steps": []}
+    last_grouped = None
     for _ in range(nsteps):
         e = random_event(rng, s, pal)
+        for _try in range(8):
+            if plausible(s, e):
+                break
+            e = random_event(rng, s, pal)
+        # a grouped receiver is the interesting history for group-sensitive internals: follow a group_by
+        # half of the time with a transforming call (joins first) on the frame that was just grouped
+        if last_grouped is not None and rng.random() < 0.5:
+            e2 = random_event(rng, s, pal)
+            for _try in range(12):
+                if e2["op"] in ("full", "left", "inner", "semi", "anti", "rbind", "cbind", "update", "sort", "unique", "filter"):
+                    break
+                e2 = random_event(rng, s, pal)
+            e2["x"] = last_grouped
+            if e2["op"] in ("filter", "filter_out"):
+                e2["a"]["mask"] = [rng.random() < 0.5 for _ in range(safe_nrow(s.frames[last_grouped - 1]))]
+            if e2["op"] in ("full", "left", "inner", "semi", "anti"):
+                cand = [h + 1 for h in range(len(s.frames)) if plausible(s, dict(e2, o=h + 1))]
+                if cand:
+                    e2["o"] = rng.choice(cand)
+            if plausible(s, e2):
+                e = e2
+        last_grouped = e["x"] if e["op"] == "group_by" and e.get("cols") else None
         if len(s.frames) >= 7:
             break
         e["obs"] = s.step(e)
